@@ -31,12 +31,14 @@ from .common import parallel_map
 
 RULE = ("cases = environment deltas (synthetic old/new pairs; sequences of real table actions with and without "
         "--force; setup/unsetup on real stacks whose product directories contain blanks and < > | & ; ( )) rendered by "
-        "the real eups.app.setup and sourced by dash and bash, plus command texts run by both shells against shEval; "
+        "the real eups.app.setup and sourced by dash and bash (environment, shell functions, echoed text, exit status), "
+        "invocations of the real wrapper script bin/eups_setup on real stacks through every exit of EupsSetup.run/execute, "
+        "plus command texts (with function definitions, echo, double quotes) run by both shells against shEval / shEvalF; "
         "plus every value of length <= 2 (thorough: 3) over a 14-symbol alphabet of metacharacters; "
         "a delta case is non-trivial when at least one command is emitted, a shell text when it lies in the modelled "
         "fragment and changes the environment; distinct = distinct case digests")
-TRUSTED = ["/bin/dash and /bin/bash as installed (the word-level shell model shEval is compared with both on every run, "
-           "not verified)",
+TRUSTED = ["/bin/dash and /bin/bash as installed (the shell models shEval / shEvalF — words, single and double quotes, "
+           "function definitions, echo, exit status — are compared with both on every run, not verified)",
            "CPython `re` on the three patterns of the emitter (^['\"].*['\"]$, [\\s<>|&;()], ^EUPS_(DIR|PATH|PKGROOT|SHELL)$): "
            "hand-translated, exercised on every run",
            "`env -0` (GNU coreutils) reports the shell's exported environment; the variables the shells maintain "
@@ -44,9 +46,21 @@ TRUSTED = ["/bin/dash and /bin/bash as installed (the word-level shell model shE
 ASSUMPTIONS = ["variable names are identifiers and not variables the shells treat specially (IFS, PS1, UID, BASH*, LC_*, ...)",
                "values in the claim are over [A-Za-z0-9/._:+=,@%^-] plus space, tab, newline and < > | & ; ( ); quote "
                "characters, $, backquote, backslash, ~, braces, glob characters, ! and # are outside the claim",
-               "shell functions (aliases) are emitted and compared as text; their evaluation is exercised on the real "
-               "shells only, not modelled by shEval",
-               "csh/zsh emission is compared as text only (no csh/zsh binary installed)"]
+               "alias values in the claim are plain command lines (words over the safe characters separated by blanks, "
+               "the first not a reserved word); other alias values are passed to the shell as they are (eups does not "
+               "quote them) and are compared with shEvalF only where its fragment reaches (\"$@\", $@, single quotes, "
+               "several commands)",
+               "csh/zsh emission is compared as text only (no csh/zsh binary installed)",
+               "EUPS_LOCK_PID, which lock.takeLocks puts into the process environment for its children before Eups takes "
+               "the baseline of the delta, is not part of the computed environment (command-line cases)"]
+
+MIRRORS = [("python/eups/app.py", "setup"), ("python/eups/app.py", "unsetup"), ("python/eups/setupcmd.py", "*"),
+           ("bin/eups_setup.in", "*"), ("python/eups/utils.py", "guessProduct"),
+           ("python/eups/Eups.py", "Eups.setEnv"), ("python/eups/Eups.py", "Eups.unsetEnv"),
+           ("python/eups/Eups.py", "Eups.setAlias"), ("python/eups/Eups.py", "Eups.unsetAlias"),
+           ("python/eups/Eups.py", "Eups.popStack"), ("python/eups/Eups.py", "Eups.pushStack"),
+           ("python/eups/table.py", "Action.execute_envSet"), ("python/eups/table.py", "Action.execute_envPrepend"),
+           ("python/eups/table.py", "Action.execute_addAlias")]
 
 DASH = ["/bin/dash"]
 BASH = ["/bin/bash", "--norc", "--noprofile"]
@@ -792,6 +806,173 @@ def impl_stack(case):
         common.rmtree(root)
 
 
+# ---- the command line (bin/eups_setup -> setupcmd.EupsSetup.run -> eups.setup) -------------------------
+
+def gen_cli(rng):
+    """A real stack (as gen_stack) and 1-4 invocations of the real wrapper script with option combinations that reach
+    every exit of EupsSetup.run/execute: -h, -V, -l, no product, -m with and without a product, a missing table
+    file, -r on a product directory / a directory without ups / a missing directory, -r DIR PRODUCT VERSION with an
+    undeclared version, -j with -S, an unknown product, unsetup of something that is not set up."""
+    st = gen_stack(rng)
+    prods = [p for p in st["products"] if p["name"] != "eups"]
+    names = [p["name"] for p in prods]
+    calls = []
+    for _ in range(rng.randint(1, 4)):
+        c = {"help": False, "version": False, "list": False, "unsetup": False, "nodepend": False, "maxDepth": -1,
+             "tablefile": None, "productDir": None, "args": [], "nolocks": rng.random() < 0.5}
+        nm = rng.choice(names)
+        r = rng.random()
+        if r < 0.30:
+            c["args"] = [nm] + (["1"] if rng.random() < 0.4 else [])
+        elif r < 0.40:
+            c["args"] = [nm]
+            c["unsetup"] = True
+        elif r < 0.46:
+            c[rng.choice(["help", "version", "list"])] = True
+            if rng.random() < 0.5:
+                c["args"] = [nm]
+        elif r < 0.50:
+            pass                                              # nothing at all
+        elif r < 0.58:
+            c["args"] = [rng.choice(["nosuchproduct", nm])] + ([rng.choice(["9.9", "1"])] if rng.random() < 0.6 else [])
+        elif r < 0.70:
+            c["tablefile"] = rng.choice([["prodtable", nm], ["prodtable", nm], ["missing"], ["none"]])
+            if rng.random() < 0.5:
+                c["args"] = [nm]
+            c["unsetup"] = rng.random() < 0.15
+        elif r < 0.90:
+            c["productDir"] = rng.choice([["proddir", nm], ["proddir", nm], ["missing"], ["empty"]])
+            k = rng.random()
+            if k < 0.4:
+                c["args"] = [rng.choice([nm, nm, "othername"])]
+            elif k < 0.7:
+                c["args"] = [nm, rng.choice(["1", "9.9"])]
+            if rng.random() < 0.2:
+                c["tablefile"] = ["prodtable", nm]
+        else:
+            c["args"] = [nm]
+            c["nodepend"] = True
+            c["maxDepth"] = rng.choice([-1, 0, 1, 2])
+        if not c["nodepend"] and rng.random() < 0.1:
+            c["maxDepth"] = rng.choice([0, 1])
+        calls.append(c)
+    return {"kind": "cli", "products": st["products"], "calls": calls, "extra": st["extra"]}
+
+
+def _cli_paths(root, prods, call):
+    """symbolic paths -> real ones, and the facts about them, from the structure of the case"""
+    def pdir(nm):
+        pd = [p for p in prods if p["name"] == nm][0]
+        return os.path.join(root, "stack0", "Linux", pd["name"], pd["dir"])
+    tf = call["tablefile"]
+    tfp, tf_exists = None, False
+    if tf:
+        if tf[0] == "prodtable":
+            tfp, tf_exists = os.path.join(pdir(tf[1]), "ups", tf[1] + ".table"), True
+        elif tf[0] == "missing":
+            tfp = os.path.join(root, "nowhere", "x.table")
+        else:
+            tfp = "none"
+    pd = call["productDir"]
+    pdp, ups_is_dir, tables = None, False, []
+    if pd:
+        if pd[0] == "proddir":
+            pdp, ups_is_dir, tables = pdir(pd[1]), True, [pd[1]]
+        elif pd[0] == "missing":
+            pdp = os.path.join(root, "nowhere")
+        else:
+            pdp = os.path.join(root, "emptydir")
+    found = len(call["args"]) > 1 and any(p["name"] == call["args"][0] and p["version"] == call["args"][1] for p in prods)
+    return tfp, pdp, {"tablefileExists": tf_exists, "upsIsDir": ups_is_dir, "tables": tables, "found": found}
+
+
+def _cli_argv(call, tfp, pdp):
+    a = ["-q"] if call.get("quiet") else []
+    if call["nolocks"]:
+        a.append("-N")
+    for k, f in (("help", "-h"), ("version", "-V"), ("list", "-l"), ("unsetup", "-u"), ("nodepend", "-j")):
+        if call[k]:
+            a.append(f)
+    if call["maxDepth"] != -1:
+        a += ["-S", str(call["maxDepth"])]
+    if tfp is not None:
+        a += ["-m", tfp]
+    if pdp is not None:
+        a += ["-r", pdp]
+    return a + call["args"]
+
+
+def _cli_run(env_before, argv, cwd):
+    """The real wrapper script bin/eups_setup(.in) in this (forked) process: stdout, exit status, what eups.setup
+    returned, os.environ afterwards."""
+    import runpy
+    import eups
+    _set_environ(env_before)
+    os.chdir(cwd)
+    sys_argv = ["eups_setup"] + argv
+    rec = {"reached": False, "cmds": None}
+    real = eups.setup
+
+    def recording(*a, **kw):
+        rec["reached"] = True
+        r = real(*a, **kw)
+        rec["cmds"] = list(r)
+        return r
+    eups.setup = recording
+    import sys as _sys
+    _sys.argv = sys_argv
+    out, code = io.StringIO(), 0
+    script = os.path.join(common.REPO, "bin", "eups_setup.in")
+    try:
+        with contextlib.redirect_stdout(out), _quiet():
+            try:
+                runpy.run_path(script, run_name="__main__")
+            except SystemExit as e:
+                code = e.code if isinstance(e.code, int) else (0 if e.code is None else 1)
+    finally:
+        eups.setup = real
+    return {"stdout": out.getvalue(), "status": code & 0xFF, "reached": rec["reached"], "cmds": rec["cmds"],
+            "cur": [list(x) for x in os.environ.items()]}
+
+
+def impl_cli(case):
+    root = common.scratch("c05c")
+    try:
+        saved = dict(os.environ)
+        cwd0 = os.getcwd()
+        common.mkstacks(root, default_product=True)
+        os.makedirs(os.path.join(root, "emptydir"))
+        env = [["PATH", "/usr/bin:/bin"], ["HOME", root], ["EUPS_SHELL", "sh"], ["EUPS_FLAVOR", "Linux"],
+               ["EUPS_PATH", os.environ["EUPS_PATH"]], ["EUPS_USERDATA", os.environ["EUPS_USERDATA"]]] + case["extra"]
+        r = common.in_child(_stack_declare, env, root, case["products"])
+        if r[0] != "ok":
+            return {"declare": r[:3], "steps": []}
+        steps = []
+        for call in case["calls"]:
+            tfp, pdp, world = _cli_paths(root, case["products"], call)
+            argv = _cli_argv(call, tfp, pdp)
+            r = common.in_child(_cli_run, env, argv, os.path.join(root, "emptydir"))
+            if r[0] != "ok":
+                steps.append({"exc": r[1:3]})
+                break
+            st = r[1]
+            st["world"], st["argv"], st["base"] = world, argv, env
+            st["tablefile"], st["productDir"] = tfp, pdp
+            if "`" not in st["stdout"] and "$(" not in st["stdout"]:
+                st["shellsF"] = run_shells_full(env, st["stdout"], how="source", scratch=root)
+            else:
+                st["shellsF"] = None
+            steps.append(st)
+            if st["status"] == 0 and st["reached"] and st["cmds"] != ["false"]:
+                env = [x for x in st["cur"] if x[0] != "EUPS_LOCK_PID"]
+        os.chdir(cwd0)
+        os.environ.clear()
+        os.environ.update(saved)
+        return {"steps": steps, "root": root}
+    finally:
+        common.rmtree(root)
+
+
 def _subst(x, root):
     if root is None:
         return x
@@ -813,6 +994,8 @@ def impl_case(case):
                                            fn_names=sorted(set(FN_NAMES + [k for k, _ in case["funcs"]])))}
     if kind == "stack":
         return impl_stack(case)
+    if kind == "cli":
+        return impl_cli(case)
     out = impl_emit(case) if kind == "emit" else impl_acts(case)
     if "cmds" in out and case["opts"]["shell"] == "sh" and shell_safe(case, out):
         base = case["old"] if kind == "emit" else case["base"]
@@ -867,7 +1050,12 @@ def _mute():
 
 def run_chunk(cases):
     _mute()
-    res = [impl_case(c) for c in cases]
+    # the real-stack kinds first: the synthetic kinds configure the worker's eups (no default product) in a way the
+    # real `Eups()` of a later stack case does not survive
+    order = sorted(range(len(cases)), key=lambda i: 0 if cases[i]["kind"] in ("stack", "cli") else 1)
+    res = [None] * len(cases)
+    for i in order:
+        res[i] = impl_case(cases[i])
     if _E is not None:
         common.rmtree(_E._c05root)
     if _CWD is not None:
@@ -1093,7 +1281,19 @@ def evaluate(ctx, cases):
     # round 1: emitter / action / shell-text models
     reqs, where = [], []
     for i, (c, io_) in enumerate(zip(cases, impl)):
-        if c["kind"] == "stack":
+        if c["kind"] == "cli":
+            for j, st in enumerate(io_["steps"]):
+                if "stdout" in st:
+                    call = c["calls"][j]
+                    inner = "returned"
+                    if not (st["reached"] and st["cmds"] is not None) and st["status"] in (1, 255):
+                        inner = "EupsException" if st["status"] == 1 else "other"
+                    where.append((i, j))
+                    reqs.append({"m": "c05", "op": "cli", "inner": inner, "cmds": st["cmds"] or [], "world": st["world"],
+                                 "cli": {"help": call["help"], "version": call["version"], "list": call["list"],
+                                         "unsetup": call["unsetup"], "nodepend": call["nodepend"], "maxDepth": call["maxDepth"],
+                                         "tablefile": st["tablefile"], "productDir": st["productDir"], "args": call["args"]}})
+        elif c["kind"] == "stack":
             for j, st in enumerate(io_["steps"]):
                 if "cmds" in st and st["cmds"] != ["false"]:
                     where.append((i, j))
@@ -1115,6 +1315,11 @@ def evaluate(ctx, cases):
             where2.append((i, None))
             reqs2.append({"m": "c05", "op": "shevalf", "env": c["old"] if c["kind"] == "emit" else c["base"],
                           "funcs": io_["funcs0"], "text": ";\n".join(io_["cmds"]) + "\n"})
+        elif c["kind"] == "cli":
+            for j, st in enumerate(io_["steps"]):
+                if st.get("shellsF") is not None:
+                    where2.append((i, j))
+                    reqs2.append({"m": "c05", "op": "shevalf", "env": st["base"], "funcs": [], "text": st["stdout"]})
         elif c["kind"] == "stack":
             for j, st in enumerate(io_["steps"]):
                 if "cmds" in st:
@@ -1146,6 +1351,49 @@ def evaluate(ctx, cases):
                     ctx.hist("textF:status-nonzero")
             changed = bool(infrag) and (visible(ans["env"]) != visible(c["env"]) or ans["funcs"] != c["funcs"] or bool(ans["out"]))
             ctx.case(key=c, nontrivial=changed, sample={"input": c, "impl": io_} if ctx.evaluations % 499 == 0 else None)
+            continue
+        if kind == "cli":
+            if "declare" in io_:
+                raise common.InfraError("could not declare the generated products: %r" % (io_["declare"],))
+            root = io_["root"]
+            nontriv = False
+            for j, st in enumerate(io_["steps"]):
+                sub = {"kind": "cli", "products": c["products"], "calls": c["calls"][:j + 1], "extra": c["extra"]}
+                if "exc" in st:
+                    ctx.hist("cli:harness-exception=%s" % st["exc"][0])
+                    ctx.disagree("cli_runs", sub, st, None)
+                    continue
+                m = model.get((i, j))
+                got = {"stdout": st["stdout"] or None, "status": st["status"]}
+                ctx.hist("cli:status=%d%s" % (st["status"], "" if st["stdout"] else "/silent"))
+                if st["cmds"] == ["false"]:
+                    ctx.hist("cli:false-from-eups.setup")
+                if m != got:
+                    ctx.disagree("cli_stdout_and_status", sub, _subst(dict(got, argv=st["argv"], reached=st["reached"]), root),
+                                 _subst(m, root))
+                if st.get("shellsF") is None:
+                    continue
+                compare_shellf_model(ctx, sub, st["shellsF"], sheval[(i, j)], "emitted", [], root=root)
+                failed = st["status"] != 0 or st["cmds"] == ["false"] or not st["reached"]
+                if failed:
+                    # oracle (ii): whatever went wrong, the caller's shell is untouched; when something was printed it is
+                    # a failing command
+                    ctx.hist("cli:failure-sourced")
+                    for sh, g in st["shellsF"].items():
+                        if not isinstance(g, dict) or g["env"] != visible(st["base"]) or (st["stdout"].strip() and g["status"] == 0):
+                            ctx.fail("failed_request_leaves_shell_untouched_and_reports_failure", sub,
+                                     _subst({"stdout": st["stdout"], "status": st["status"]}, root), _subst(m, root),
+                                     note="%s: after sourcing: %s" % (sh, common.jdump(_subst(g, root))[:400]))
+                else:
+                    nontriv = nontriv or bool(st["cmds"])
+                    old_after = [[k, v] for k, v in st["base"]]
+                    # lock.takeLocks puts EUPS_LOCK_PID into the process environment for its children *before* Eups takes
+                    # the baseline of the delta: it is deliberately not part of what the shell is told
+                    cur = [x for x in st["cur"] if x[0] != "EUPS_LOCK_PID" or x[0] in dict(st["base"])]
+                    check_delta(ctx, c, sub, st["base"], old_after, cur, envs_of(st["shellsF"]),
+                                bool(c["calls"][j]["args"]) and c["calls"][j]["args"][0] == "eups",
+                                _subst(m, root), _subst({"stdout": st["stdout"], "status": st["status"]}, root), root=root)
+            ctx.case(key=c, nontrivial=nontriv, sample={"input": c, "impl": _subst(io_, root)} if ctx.evaluations % 199 == 0 else None)
             continue
         if kind == "stack":
             if "declare" in io_:
@@ -1252,7 +1500,7 @@ def corpus_cases():
 
 
 def gen_case(rng, kind):
-    return {"emit": gen_emit, "acts": gen_acts, "stack": gen_stack, "shell": gen_shell, "shellf": gen_shellf}[kind](rng)
+    return {"emit": gen_emit, "acts": gen_acts, "stack": gen_stack, "shell": gen_shell, "shellf": gen_shellf, "cli": gen_cli}[kind](rng)
 
 
 ENUM_ALPHA = "a/= \t\n<>|&;()'"
@@ -1281,11 +1529,11 @@ def run(ctx):
     ctx.hist("enumerated-values", sum(len(c["new"]) - 1 for c in en))
     for i in range(0, len(en), 600):
         evaluate(ctx, en[i:i + 600])
-    budget = [("emit", ctx.n(2400, 60000)), ("stack", ctx.n(160, 4000)), ("acts", ctx.n(800, 30000)),
+    budget = [("emit", ctx.n(2400, 60000)), ("stack", ctx.n(160, 4000)), ("cli", ctx.n(96, 3000)), ("acts", ctx.n(800, 30000)),
               ("shellf", ctx.n(1200, 60000)), ("shell", ctx.n(2000, 100000))]
     for kind, n in budget:
         done = 0
-        batch = 600 if kind != "stack" else 48
+        batch = 600 if kind not in ("stack", "cli") else 48
         while done < n and not ctx.out_of_time():
             k = min(batch, n - done)
             evaluate(ctx, [gen_case(ctx.rng, kind) for _ in range(k)])
@@ -1302,6 +1550,15 @@ def run(ctx):
     if h.get("emit:unsetup-eups/dropped-variable-in-caller-env", 0) < 20 or h.get("stack:unsetup-eups", 0) < 5:
         raise common.InfraError("degenerate distribution: unsetup of eups itself reached %d (synthetic) / %d (real stack) times"
                                 % (h.get("emit:unsetup-eups/dropped-variable-in-caller-env", 0), h.get("stack:unsetup-eups", 0)))
+    if h.get("textF:in-fragment", 0) < 0.25 * max(1, h.get("kind=shellf", 0)) or h.get("textF:functions-changed", 0) < 30:
+        raise common.InfraError("degenerate distribution: %d texts with functions/echo inside the fragment, %d changing the functions"
+                                % (h.get("textF:in-fragment", 0), h.get("textF:functions-changed", 0)))
+    if h.get("functions:changed", 0) < 30 or h.get("noaction:sourced", 0) < 20:
+        raise common.InfraError("degenerate distribution: aliases changed the shell's functions %d times, -n texts sourced %d times"
+                                % (h.get("functions:changed", 0), h.get("noaction:sourced", 0)))
+    if h.get("cli:failure-sourced", 0) < 10 or h.get("cli:status=0", 0) < 10 or h.get("cli:status=3/silent", 0) < 2:
+        raise common.InfraError("degenerate distribution: command-line cases: %d failures sourced, %d successes, %d usage errors"
+                                % (h.get("cli:failure-sourced", 0), h.get("cli:status=0", 0), h.get("cli:status=3/silent", 0)))
     if h.get("quoted-value", 0) < 0.2 * max(1, h.get("kind=emit", 0)):
         raise common.InfraError("degenerate distribution: %d cases with a quoted value" % h.get("quoted-value", 0))
 
